@@ -51,6 +51,7 @@ def runF (F : Nat) : PExpr → List Nat → P
   | .or3 a b c, inp => orBoxP (runF F a inp) [runF F b inp, runF F c inp]
   | .orNoBox l r, inp => orNoBoxP (runF F l inp) (runF F r inp)
   | .many an e, inp => manyPF F an (runF F e inp)
+  | .manyC mc an e, inp => finP mc (manyPF F an (runF F e inp))
   | .manyCtx an e, inp => manyPF F an (runF F e inp)
   | .filter pr e, inp => filterP pr (runF F e inp)
   | .filterMap f e, inp => filterMapP f (runF F e inp)
@@ -79,7 +80,7 @@ def runF (F : Nat) : PExpr → List Nat → P
 /-- the model's `run` is `runF` at the model's fuel -/
 theorem runF_len (inp : List Nat) : ∀ e : PExpr, runF (inp.length + 3) e inp = run e inp := by
   intro e
-  induction e <;> simp only [runF, run, manyP_eq, delimitedP_eq, *]
+  induction e <;> simp only [runF, run, manyCP_eq_fin, manyP_eq, delimitedP_eq, *]
 
 /-! ## 2. More fuel only turns `hang` into an answer -/
 
@@ -109,6 +110,7 @@ theorem toFatalP_le {p p'} (hp : PLe p p') : PLe (toFatalP p) (toFatalP p') := b
 theorem withSoftErrP_le {c ft p p'} (hp : PLe p p') : PLe (withSoftErrP c ft p) (withSoftErrP c ft p') := by
   ple [withSoftErrP]
 theorem mapFatalErrP_le {c p p'} (hp : PLe p p') : PLe (mapFatalErrP c p) (mapFatalErrP c p') := by ple [mapFatalErrP]
+theorem finP_le {mc p p'} (hp : PLe p p') : PLe (finP mc p) (finP mc p') := by ple [finP]
 theorem flattenP_le {l l' r r'} (hl : PLe l l') (hr : PLe r r') : PLe (flattenP l r) (flattenP l' r') := by
   ple [flattenP]
 
@@ -207,6 +209,7 @@ theorem runF_le (inp : List Nat) {F F' : Nat} (hF : F ≤ F') : ∀ e : PExpr, P
   | or3 a b c iha ihb ihc => exact orBoxP_le _ _ _ _ iha ⟨ihb, ihc, trivial⟩
   | orNoBox l r ihl ihr => exact orNoBoxP_le ihl ihr
   | many an e ih => exact manyPF_le ih hF
+  | manyC mc an e ih => exact finP_le (manyPF_le ih hF)
   | manyCtx an e ih => exact manyPF_le ih hF
   | filter pr e ih => exact filterP_le ih
   | filterMap f e ih => exact filterMapP_le ih
@@ -258,6 +261,7 @@ theorem runF_vs_run (inp : List Nat) (F : Nat) (e : PExpr) (pos : Nat) (h : run 
 consuming input (for a delimited list: element and delimiter together) -/
 def LoopStuck (inp : List Nat) : PExpr → Nat → Prop
   | .many _ b, q => ∃ vs r v, Chain (run b inp) q vs r ∧ run b inp r = .ok v r
+  | .manyC _ _ b, q => ∃ vs r v, Chain (run b inp) q vs r ∧ run b inp r = .ok v r
   | .manyCtx _ b, q => ∃ vs r v, Chain (run b inp) q vs r ∧ run b inp r = .ok v r
   | .delimited am _ b d, q => ∃ r, DReach am (run b inp) (run d inp) q r ∧ DRound am (run b inp) (run d inp) r r
   | _, _ => False
@@ -408,6 +412,7 @@ theorem Calls.hangF {inp : List Nat} {e : PExpr} {pos : Nat} {s : PExpr} {q : Na
   | orNoBox_l => simp [runF, orNoBoxP, hf]
   | orNoBox_r h1 => rcases (ag _).of_eq h1 (by simp) with h | h <;> simp [runF, orNoBoxP, h, hf]
   | many hc => simp only [runF]; exact manyPF_hang (ag _) hc (.inl hf) F _
+  | manyC hc => simp only [runF, finP, manyPF_hang (ag _) hc (.inl hf) F _]
   | manyCtx hc => simp only [runF]; exact manyPF_hang (ag _) hc (.inl hf) F _
   | filter => simp [runF, filterP, hf]
   | filterMap => simp [runF, filterMapP, hf]
@@ -462,6 +467,14 @@ theorem LoopStuck.hangF {inp : List Nat} {s : PExpr} {q : Nat} (h : LoopStuck in
     rcases (ag _).of_eq hr (by simp) with h | h
     · exact .inl h
     · exact .inr ⟨v, h⟩
+  case manyC mc an b =>
+    obtain ⟨vs, r, v, hc, hr⟩ := h
+    have : manyPF F an (runF F b inp) q = .hang := by
+      refine manyPF_hang (ag _) hc ?_ F _
+      rcases (ag _).of_eq hr (by simp) with h | h
+      · exact .inl h
+      · exact .inr ⟨v, h⟩
+    simp only [runF, finP, this]
   case delimited am te b d =>
     obtain ⟨r, hreach, hround⟩ := h
     simp only [runF, delimitedPF]
@@ -673,6 +686,16 @@ theorem hang_cases {inp : List Nat} : ∀ (e : PExpr) (pos : Nat), pos ≤ inp.l
     obtain ⟨vs, r, hc, hr⟩ := manyP_hang_cases b hpos h
     rcases hr with hr | ⟨v, hr⟩
     · exact .inl ⟨b, r, .manyCtx hc, hr⟩
+    · exact .inr ⟨vs, r, v, hc, hr⟩
+  | manyC mc an b =>
+    have h' : manyP inp.length an (run b inp) pos = .hang := by
+      simp only [run, manyCP_eq_fin, finP] at h
+      split at h
+      · simp at h
+      · assumption
+    obtain ⟨vs, r, hc, hr⟩ := manyP_hang_cases b hpos h'
+    rcases hr with hr | ⟨v, hr⟩
+    · exact .inl ⟨b, r, .manyC hc, hr⟩
     · exact .inr ⟨vs, r, v, hc, hr⟩
   | filter pr b =>
     simp only [run, filterP] at h
